@@ -1,8 +1,10 @@
 import Verif.Util.Proto
 import Verif.Model.Exec
-/-! Driver for stream `det` (C33): obs = `same|diff:<step> \t runs=3 \t traces of the first run`.
-A difference between the repeated executions is a violation; independently, every commit block of
-every trace must be in the canonical (sorted) order that the collect-then-sort model emits. -/
+/-! Driver for stream `det` (C33): obs = `same|diff:<step>:<component>:<detail> ;; runs=<n> ;; traces of the first run`.
+A difference between the repeated executions is a violation (class by the component that differed:
+the complete error message text of a failing execution is `error-text`); independently, every commit
+block of every trace must be in the canonical (sorted) order that the collect-then-sort model emits.
+An engine field `<engine>:<reps>` marks the contract-update family (history repeated `reps` times). -/
 open Verif.Proto Verif.Model.Exec
 
 def hexNat (s : String) : Option Nat :=
@@ -21,14 +23,20 @@ def parseW (t : String) : Ev :=
 
 def judge (op : List String) (go : String) : Verdict :=
   match op with
-  | "det" :: engine :: _ =>
+  | "det" :: engineField :: _ =>
+    let engine := (engineField.splitOn ":").headD ""
+    let family := if (engineField.splitOn ":").length > 1 then "update-family" else "random-history"
     match go.splitOn " ;; " with
     | [verdict, _runs, traces] =>
       let trs := (traces.splitOn " | ").map (fun t => ((t.splitOn " ").filter (· ≠ "")).map parseW)
       let nWrites : Nat := (trs.map (fun tr => (tr.filter Ev.isWrite).length)).foldl (· + ·) 0
       let multiAcct := trs.any (fun tr => (tr.filter (fun e => match e with | .write _ false _ => true | _ => false)).length ≥ 2)
-      let tags := [engine, if nWrites == 0 then "no-writes" else "writes", if multiAcct then "multi-account-commit" else "single"]
-      if verdict != "same" then .violation "nondeterministic-outcome" "identical observations in every run" tags
+      let tags := [engine, family, if nWrites == 0 then "no-writes" else "writes", if multiAcct then "multi-account-commit" else "single"]
+      if verdict != "same" then
+        let component := ((verdict.splitOn ":").drop 2).headD ""
+        if component == "error-text" then
+          .violation "nondeterministic-error-message" "identical error message (all reported errors, in the same order) in every run" tags
+        else .violation "nondeterministic-outcome" "identical observations in every run" tags
       else if !(trs.all writesCanonical) then
         .violation "commit-order-not-canonical" "register writes in sorted order (account registers by address, then slabs by id)" tags
       else .ok (if nWrites > 0 then "!nt" :: tags else tags)
